@@ -143,7 +143,7 @@ def _part_a(ctx, case, rec, d):
         ap, t = fc.grid3d(seed * 10 + 14, n_models=5, n_ap=3, bands=B3)
         t = t[:nm_]
         if nm_ == 5:
-            t[4] = t[4][:, :1] * np.array([1.0, 1e2, 1e4])[None, :]          # one model resolved at most trial distances (matters with remove_resolved)
+            t[4] = t[4][:, :1] * np.array([1.0, 1.0, 1e6])[None, :]          # one model resolved at most trial distances (matters with remove_resolved)
         md = fc.build_package(d, 'pkg', {'fmt': fmt, 'names': names, 'bands': B3, 'apertures': ap, 'tables': t, 'logd_step': 0.25})
         base = t[min(2, nm_ - 1)][:, 1] * 10 ** (1.2 * k) * 0.5
     law = fc.law_object(cfg.get('law', 'power'))
